@@ -84,7 +84,7 @@ func simplerOutcome(o Outcome) []Outcome {
 			out = append(out, c)
 		}
 	}
-	if o.Pay != "" && o.Pay != "int" {
+	if o.Pay != "" && o.Pay != "int" && o.Pay != "result" {
 		c := o
 		c.Pay = "int"
 		out = append(out, c)
@@ -174,6 +174,18 @@ func shrinkCands(x any) []any {
 			c := sc.clone()
 			c.Nodes[id].HasFb = false
 			add(c)
+		}
+		if n.Decoy != "" {
+			c := sc.clone()
+			c.Nodes[id].Decoy = ""
+			add(c)
+			if len(n.Decoy) > 1 {
+				for k := range n.Decoy {
+					c = sc.clone()
+					c.Nodes[id].Decoy = n.Decoy[:k] + n.Decoy[k+1:]
+					add(c)
+				}
+			}
 		}
 		if n.Hand && (n.PrepShape == "" || n.PrepShape == "results") {
 			c := sc.clone()
